@@ -243,6 +243,8 @@ def process_violation(prop, raw):
             if hits:
                 alone = True
     final = path
+    if not alone and any("reproduces only after" in n for n in note):
+        final = minimise_prefix(path)
     if alone:
         minp = path.replace(".json", ".min.json")
         rc3, out3 = run([BIN, "minimise", path, "--out", minp], timeout=900)
@@ -267,6 +269,58 @@ def process_violation(prop, raw):
         json.dump(rf, open(final, "w"), indent=1)
     rf["_confirmed"] = confirmed
     return final, alone, rf
+
+
+def minimise_prefix(path, budget_s=420, max_tests=48):
+    """A violation that needs the runs its worker executed before: shrink that list of run
+    indexes (drop chunks while the class still reproduces in a fresh process)."""
+    rf = json.load(open(path))
+    pre = list(rf.get("prefix_run_indexes") or [])
+    if len(pre) < 2:
+        return path
+    t_end = time.time() + budget_s
+    tmpf = path.replace(".json", ".prefix-try.json")
+    tests = 0
+    before = len(pre)
+
+    def still(cand):
+        nonlocal tests
+        tests += 1
+        c = dict(rf)
+        c["prefix_run_indexes"] = cand
+        json.dump(c, open(tmpf, "w"))
+        rc, _ = run([BIN, "replay", tmpf], timeout=600)
+        return rc == 1
+
+    chunk = max(1, len(pre) // 2)
+    while chunk >= 1 and time.time() < t_end and tests < max_tests:
+        i = 0
+        progress = False
+        while i < len(pre) and time.time() < t_end and tests < max_tests:
+            cand = pre[:i] + pre[i + chunk:]
+            if still(cand):
+                pre = cand
+                progress = True
+            else:
+                i += chunk
+        if chunk == 1 and not progress:
+            break
+        chunk = chunk // 2 if chunk > 1 else (1 if progress else 0)
+    if os.path.exists(tmpf):
+        os.remove(tmpf)
+    rf["prefix_run_indexes"] = pre
+    rf.setdefault("notes", []).append(f"prefix of earlier runs minimised from {before} to {len(pre)} run(s) in {tests} fresh-process replays")
+    out = path.replace(".json", ".min.json")
+    json.dump(rf, open(out, "w"), indent=1)
+    return out
+
+
+def scenario_of(seed, salt, idx):
+    rc, out = run([BIN, "scenario", "--seed", str(seed), "--salt", str(salt), "--run-index", str(idx)], timeout=120)
+    try:
+        return json.loads(out.strip().splitlines()[-1]) if rc == 0 else None
+    except Exception:  # noqa
+        return None
 
 
 def report(prop, raws, limit=3):
@@ -409,6 +463,7 @@ def selftest(seed, n, raws, layouts=None, quiet=False, only_run=None):
                         {"class": "cross-process-divergence", "key": "", "phase": "selftest",
                          "detail": f"run {i}: library-produced results differ between a 1-process and a {W}-process layout (same run seed, different process history): {da} vs {dc}; first differing log item {k}: {a!r} vs {c!r}"}],
                         "provenance": {"verif_seed": seed, "salt": 4, "run_index": i, "run_seed": 0, "worker": 0, "workers": W, "sched_index": 0},
+                        "scenario_of_run": scenario_of(seed, 4, i),
                         "notes": [f"re-run: cooksim c18 --seed {seed} --salt 4 --runs {n} --scheds 2 --workers 1 --worker 0 --dump-log A.txt and the same with --workers {W} --worker {i % W} --dump-log B.txt; compare the blocks of RUN {i}"]},
                         open(p, "w"), indent=1)
                     if divergences <= 3 and not quiet:
@@ -600,6 +655,7 @@ def check_c18(tier, seed):
                            "provenance": {"verif_seed": seed, "salt": 3, "run_index": j, "run_seed": 0, "worker": 0, "workers": 1, "sched_index": 0},
                            "violations": [{"class": "history-dependence", "key": str(diff), "phase": "cold",
                                            "detail": f"two fresh processes that observe the reference keys of run {j} in forward and in reverse order disagree on {len([x for x in fa if x not in fb])} fingerprint(s): {diff}"}],
+                           "scenario_of_run": scenario_of(seed, 3, j),
                            "notes": [f"replay: {BIN} c18 --seed {seed} --salt 3 --start {j} --runs 1 --ref-order fwd --dump-refs A.txt ; same with --ref-order rev --dump-refs B.txt ; sort and diff A.txt B.txt"]},
                           open(p, "w"), indent=1)
                 if cold_div <= 3:
